@@ -142,10 +142,11 @@ const (
 	opLongFragment
 	opRemoveCreate
 	opEcho
+	opSibling
 	nOps
 )
 
-var opNames = []string{"append2", "fragment", "complete-fragment", "long-line", "rotate", "truncate+write", "long-fragment", "remove+create", "line-as-long-as-the-last-fragment"}
+var opNames = []string{"append2", "fragment", "complete-fragment", "long-line", "rotate", "truncate+write", "long-fragment", "remove+create", "line-as-long-as-the-last-fragment", "sibling-files-change"}
 
 type world struct {
 	fs       *memFS
@@ -220,6 +221,20 @@ func (w *world) apply(k opKind) {
 		}
 		w.want = append(w.want, l)
 		w.send(fsnotify.Write, live)
+	case opSibling:
+		// things happen next to the live file that are not its business: an old rotation is compressed
+		// (audit.log.7.gz appears, is written, audit.log.7 - if there is one - goes away), an editor leaves a
+		// backup, the live file's mode is touched. Nothing is delivered, and nothing already delivered comes again
+		w.fs.files["audit.log.7.gz"] = []byte("\x1f\x8b\x08 not text\n")
+		w.send(fsnotify.Create, "audit.log.7.gz")
+		w.send(fsnotify.Write, "audit.log.7.gz")
+		if _, ok := w.fs.files["audit.log.7"]; ok {
+			delete(w.fs.files, "audit.log.7")
+			w.send(fsnotify.Remove, "audit.log.7")
+		}
+		w.fs.files["audit.log~"] = []byte("backup\n")
+		w.send(fsnotify.Create, "audit.log~")
+		w.send(fsnotify.Chmod, live)
 	case opRotate:
 		// audit.log.N -> audit.log.N+1 ..., audit.log -> audit.log.1, new empty audit.log
 		var nums []int
